@@ -85,6 +85,9 @@ def handle (st : Unit) (j : Json) : Unit × Json :=
   | some "cut_to_order" => withH j "H" fun s c => do pure (result (cutToOrder c s (← getInt? j "order")))
   | some "k_skeleton" => withH j "H" fun s c => do pure (result (kSkeleton c s (← getInt? j "order")))
   | some "from_max_simplices" => withH j "H" fun s c => some (result (fromMaxSimplices c s))
+  | some "maximal" => withH j "H" fun s _ => do
+      let strict ← getBool? j "strict"
+      pure (Json.mkObj [("out", "ok"), ("ids", idsToJson (if strict then maximalStrictIds s else maximalIds s))])
   | some "lch" => withH j "H" fun s _ => some (result (lch s))
   | some "relabel" => withH j "H" fun s _ => do
       let l ← getStr? j "label_attribute"
